@@ -440,7 +440,8 @@ func (user *userImpl) CollectionChannelGrantedPeriods(scope, collection, chanNam
 		}
 	}
 
-	roles, err := user.GetRoles()
+	// Include roles that are still assigned but have been deleted: their channel history describes access the user had
+	roles, err := user.GetRolesIncDeleted()
 	if err != nil {
 		return nil, err
 	}
